@@ -211,4 +211,21 @@ PROPS["C19"] = dict(
           "inner stack, its child contexts, own entry omitted only when the last context is exiting; locals iff capture_locals), pickles, "
           "and format_flat == header + StackSummary.format() + leaf + error (also for recursion with collapsed repeats).",
     note="NOT a proof; traceback module behaviour assumed")
+PROPS["C09"] = dict(
+    level="other", contracts=["contracts.glue_small", "contracts.c11"],
+    unit_filter=lambda u: u.name.startswith("C09.") or u.name.startswith("C11.fill_context"),
+    legs=[dict(name="c09_trees", cmd="PYTHONPATH={repo} " + PY312 + " legs/c09_trees.py")], technique=TECH + "; bounded registration-sequence leg",
+    explanation="Deductive part (all inputs): elaborate_generatorbased_contextmanager sets inner_stack = extract_child(mgr.gen, for_task=False) "
+                "iff the context is not exiting and always a description, touching nothing else; elaborate_exit_stack's loop is cut by an "
+                "invariant (children attached up front, one child appended per callback at position idx = registration order, fill_context run "
+                "on exactly that child) with clauses at the append: obj is the callback's __self__ if it has a truthy one else the callback, "
+                "is_async == not is_sync, start_line inherited, not exiting, the method constant has the right sync/async kind, the enter form "
+                "is chosen iff the callback is a non-method with __self__ or a bound __exit__/__aexit__, the await tag iff async enter form; "
+                "no hook exception is swallowed. Relative to the contextlib storage axioms listed in the assumptions, which the bounded leg "
+                "checks against the RUNNING contextlib: every sequence of length <= 3 over the 10 registration forms, generator-based entries "
+                "nested two deep, the exit stack observed while exiting, a functools.wraps-decorated pushed function.",
+    claim="Classification and tree-building contracts proved relative to contextlib's storage shapes; those shapes and the end-to-end tree are "
+          "checked on an enumerated bounded family against the running contextlib.",
+    note="contextlib private attributes (_exit_callbacks, gen, func/args/kwds) assumed as observed on the running interpreter; "
+         "description TEXT beyond the method name is not specified; varname f-string not decoded deductively (leg checks it)")
 NOT_APPLICABLE = {}
